@@ -46,6 +46,11 @@ def run(ctx):
             continue
         ctx.cfg_tag = cfg
         run_cfg(ctx, fx)
+        # R16.5 (shared with C05) a released child with no other strong handle does stop: the library's own timer futures of
+        # the child hold it weakly while they sleep (otherwise a child with two timers outlives its parent for ever)
+        from props import c05
+        ctx.cfg_tag = None
+        core.shared(ctx, "R16.5", c05.check_timers_own_nothing, ctx, fx, cfg, "R16.5")
     return core.finish(ctx)
 
 
@@ -90,11 +95,19 @@ def check_child_table_access(ctx, fx, RULE="R16.1"):
 
 def run_cfg(ctx, fx):
     check_child_table_access(ctx, fx)
-    # R16.2 what is stored, under which key
+    check_child_store(ctx, fx)
+    check_rest(ctx, fx)
+
+
+def check_child_store(ctx, fx, RULE="R16.2"):
+    """what is erased into the child table is a Sender<M> under the key of M (shared with C19: a child can only be
+    registered through the conversion into Sender<M>, which is where `C: Handler<M>` and `M::Response = ()` are demanded)"""
+    n_w = 0
     for w, expect_m in (("context::Context::<A>::add_child", "()"), ("context::Context::<A>::register_child", "M")):
         f = fx.fn(w)
         if f is None:
             continue
+        n_w += 1
         b = ctx.body(fx, f)
         keys = [t["gargs"][0] for _, t in b.normal_calls() if (t.get("callee") or "").endswith("TypeId::of") or (t.get("callee") or "") == "core::any::{impl#30}::of" or (t.get("callee") or "").endswith("::of") and "TypeId" in (t.get("destty") or "")]
         stored = []
@@ -131,7 +144,11 @@ def run_cfg(ctx, fx):
                 return ga[gen.index("M")] if "M" in gen and gen.index("M") < len(ga) else None
             ok = len(dels) == 1 and m_arg(dels[0]) == expect_m and len(dels[0]["args"]) >= 2 and all(o.kind == "arg" for o in b.origins(dels[0]["args"][1]))
             keys, stored = ["via " + (dels[0].get("callee") or "?") + "::<" + ",".join(dels[0].get("gargs") or []) + ">"] if dels else [], []
-        ctx.require(ok, "R16.2", "store:" + w, "child must be stored as a strong Sender<%s> under TypeId::of::<%s>(): keys %s stored %s" % (expect_m, expect_m, keys, stored), fn=w, site=f["loc"], detail={"key": keys, "stored": stored})
+        ctx.require(ok, RULE, "store:" + w, "child must be stored as a strong Sender<%s> under TypeId::of::<%s>(): keys %s stored %s" % (expect_m, expect_m, keys, stored), fn=w, site=f["loc"], detail={"key": keys, "stored": stored})
+    ctx.floor(RULE, "functions that register children", n_w, 2)
+
+
+def check_rest(ctx, fx):
     f = fx.fn("context::Context::<A>::send_to_children")
     if f is not None:
         fam = graph.family(fx, f["def"])
